@@ -198,6 +198,22 @@ func C16Cases(p *spec.Program, seed uint64, tier string, nSplits int) ([]*Case, 
 		}
 	}
 
+	// --- a readable, parsable configuration file that says nothing: every option on the CLI. The
+	// reference has no config file at all; only options expressible on the CLI are kept.
+	{
+		only := spec.Config{Types: p.Config.Types, ExcludeFields: p.Config.ExcludeFields, ComputedFields: p.Config.ComputedFields,
+			RequiredFields: p.Config.RequiredFields, SensitiveFields: p.Config.SensitiveFields, Sort: true}
+		if usesTemporal(p) {
+			only.ExcludeFields = append(append([]string{}, only.ExcludeFields...), temporalKeys(p)...)
+		}
+		cliOnly := only.Render(allOn(spec.ChCLI), nil)
+		refR := RunSpec{Params: cliOnly.Params, Note: "reference: no configuration file, every option on the CLI"}
+		for _, ec := range [][2]string{{"zero-length", ""}, {"comments-only", "# types:\n#   - Nothing\n"}, {"document-marker-only", "---\n"},
+			{"empty-mapping", "{}\n"}, {"blank-lines", "\n\n"}} {
+			add("channel-equivalence/empty-config-file:"+ec[0], &refR, RunSpec{Config: &ConfigFile{Mode: "file", Content: ec[1]}, Params: cliOnly.Params}, Expect{Kind: "identical-file"})
+		}
+	}
+
 	// --- no types on either channel => failure
 	cfg := c16Config(p, true)
 	noTypes := cfg.Clone()
@@ -265,4 +281,20 @@ func C16Cases(p *spec.Program, seed uint64, tier string, nSplits int) ([]*Case, 
 		add("unparsable-config/type:"+name, nil, RunSpec{Config: &ConfigFile{Mode: "file", Content: content}, Params: cli.Params}, Expect{Kind: "fails"})
 	}
 	return cases, kinds
+}
+
+// usesTemporal reports whether the program has a time or duration field (those need YAML-only options).
+func usesTemporal(p *spec.Program) bool { return len(temporalKeys(p)) > 0 }
+
+// temporalKeys lists Message.Field keys of all temporal fields (excluded when no time/duration type can be given).
+func temporalKeys(p *spec.Program) []string {
+	var out []string
+	for _, m := range p.Messages {
+		for _, f := range m.Fields {
+			if f.IsTemporal() {
+				out = append(out, m.Name+"."+f.Name)
+			}
+		}
+	}
+	return out
 }
